@@ -768,7 +768,7 @@ def _run(ctx):
     if not getattr(ctx, "replay", None):
         stage(ctx, "file-size boundaries", lambda: size_boundary_check(ctx, exe, scratch))
     if wexe and not getattr(ctx, "replay", None):
-        if time.time() - ctx.t0 > BUDGET_S:
+        if time.time() - ctx.t0 > BUDGET_S * (12 if ctx.thorough() else 1):
             ctx.broken.append("wall-clock budget (%d s) used up before the writer differential: skipped" % BUDGET_S)
         else:
             stage(ctx, "writer differential", lambda: writer_check(ctx, model, wexe, os.path.join(ctx.build, "writer.xml")))
